@@ -16,16 +16,29 @@ var c05Allowed = map[string]bool{"Age": true, "X-Httpcache-Status": true, "X-Fro
 // C05: cached responses are byte-faithful copies of the origin response.
 func C05(o *world.Obs) *Result {
 	r := NewResult()
-	// (iii) nothing hop-by-hop reaches the store
+	// (iii) nothing hop-by-hop reaches the store. Judged on the header fields as the upstream
+	// RoundTripper delivered them (a real http.Transport drops the whole Connection field when it
+	// contains "close", and with it the nominations the cache could have seen).
 	for _, c := range o.Calls {
 		if c.Kind != "resp" {
 			continue
 		}
-		mark := []byte("hop" + strconv.Itoa(c.Serial) + ";")
-		for _, op := range o.Ops {
-			if op.Op == "set" && bytes.Contains(op.Val, mark) {
-				r.Fail("C05", "hop-by-hop-stored", c.Ex, "a Set for key %q contains the hop-by-hop marker %q of reply s%d (fields: %v)", op.Key, mark, c.Serial, hopFields(c.RespHdr))
-				break
+		hop := model.HopByHop(c.RespHdr)
+		for k := range hop {
+			if k == "Connection" {
+				continue // the serialiser writes its own framing line
+			}
+			for _, v := range c.RespHdr.Values(k) {
+				if !bytes.Contains([]byte(v), []byte("hop"+strconv.Itoa(c.Serial)+";")) {
+					continue
+				}
+				line := []byte("\r\n" + k + ": " + v + "\r\n")
+				for _, op := range o.Ops {
+					if op.Op == "set" && bytes.Contains(op.Val, line) {
+						r.Fail("C05", "hop-by-hop-stored:"+k, c.Ex, "a Set for key %q contains the hop-by-hop field %s: %q of reply s%d", op.Key, k, v, c.Serial)
+						break
+					}
+				}
 			}
 		}
 	}
